@@ -146,7 +146,49 @@ def gen_cases(tier):
     yield {"class": "two-sessions", "cfgs": [a.describe(), b.describe()], "history": inter}
 
 
+
+def gen_public(tier):
+    """Both public clients with a privacy user: discovery at session entry, incl. the first discovery datagram lost and the entry
+    repeated, one User object shared by sessions, an iterator prepared before entry."""
+    from . import c13
+
+    for case in c13.gen_public(tier):
+        cfg = Cfg.from_desc(case["cfg"])
+        if cfg.priv and ("order" in case or case.get("lose_first") or case.get("empty_eid_arg") or "pre_iter" in case["script"]):
+            yield case
+
+
+def _public_problems(case):
+    from . import c13
+
+    probs, n = (c13.run_shared if "order" in case else c13.run_public)(case, ("priv", "pad", "salt"))
+    keep = []
+    for c, t in probs:
+        if c == "salt" and PROPERTY == "C11" and not ("not an OCTET STRING" in t or "priv flag" in t):
+            continue  # salt values are C14's clause
+        if c in ("priv", "pad", "salt"):
+            keep.append((c, t))
+    return keep, n
+
+
+def work_public(chunk):
+    res = common.Result()
+    for case in chunk:
+        probs, n = _public_problems(case)
+        res.count("cases")
+        res.count("datagrams", n)
+        res.count("api_calls", len(case["script"]) + 1)
+        res.distinct()
+        res.outcome("public-" + case["driver"] + ("-lost-probe" if case.get("lose_first") else ""))
+        for c, t in probs:
+            res.violation("public/%s/%s: %s" % (case["driver"], c, histcheck.classify(t)), t, case)
+    return res
+
 def replay(case):
+    if "driver" in case and "script" in case:
+        common.prepare_stage()
+        probs, n = _public_problems(case)
+        return {"problems": probs, "requests": n, "holds": not probs}
     return histcheck.replay(case, CLAUSES)
 
 
@@ -165,4 +207,5 @@ def run(tier):
     cases = list(gen_cases(tier))
     common.run_cases(rec, work, [c for c in cases if c.get("class") == "slow"], chunk=1)
     common.run_cases(rec, work, [c for c in cases if c.get("class") != "slow"], chunk=60)
+    common.run_cases(rec, work_public, list(gen_public(tier)), chunk=6)
     return histcheck.finish(rec)
